@@ -472,6 +472,10 @@ pub fn base_now() -> DateTime<Utc> {
 
 /// inspection script: logs `<path>|<name>`, records its exit status, optionally touches files
 pub fn script(path: &str, name: &str, exit: i32, action: &str) -> String {
+    if exit < 0 {
+        // ends by a signal instead of exiting: `-9` = SIGKILL, `-15` = SIGTERM, ... (no exit status exists)
+        return format!("echo '{}|{}' >> run.log; {} echo {} > {}.status; kill -{} $$; sleep 5", path, name, action, exit, name, -exit);
+    }
     format!("echo '{}|{}' >> run.log; {} echo {} > {}.status; exit {}", path, name, action, exit, name, exit)
 }
 
@@ -484,6 +488,21 @@ pub struct Gen<'a> {
     pub multi_party: bool,
     /// two functionaries of a threshold-2 step delegate with one and the same sub-layout
     pub co_delegate: bool,
+    /// the moment of verification of the scenario being generated (differs from scenario to scenario, so
+    /// that a clock reading carried over from an earlier verification shows)
+    pub now: DateTime<Utc>,
+}
+
+/// A moment of verification: mostly near `base_now`, sometimes years away from it.
+pub fn gen_now(r: &mut Rng) -> DateTime<Utc> {
+    let d = match r.below(6) {
+        0 => Duration::zero(),
+        1 => Duration::seconds(r.below(7200) as i64 - 3600),
+        2 => Duration::days(r.below(800) as i64 - 400),
+        3 => Duration::days(365 * (r.below(60) as i64 - 30)),
+        _ => Duration::seconds(r.below(200_000_000) as i64 - 100_000_000),
+    };
+    base_now() + d
 }
 
 impl<'a> Gen<'a> {
@@ -591,16 +610,17 @@ impl<'a> Gen<'a> {
                 st.prods = vec![ArtifactRule::Allow(vp("*"))];
             }
         }
-        let layout = SLayout { expires: base_now() + Duration::days(30), keys, steps, inspect, readme: "readme".into(), offset_min: None, resplit_commands: false };
+        let layout = SLayout { expires: self.now + Duration::days(30), keys, steps, inspect, readme: "readme".into(), offset_min: None, resplit_commands: false };
         let sigs = signers.iter().map(|&k| SSig { label: k, signer: k, corrupt: false }).collect();
         (SBlock { sigs, meta: SMeta::Layout(layout), signed_over: None }, dir)
     }
 
     pub fn valid(&mut self, depth: usize, allow_insp: bool) -> Scenario {
+        self.now = gen_now(self.r);
         let nown = 1 + self.r.below(2);
         let owners = self.pick_keys(nown, &[]);
         let (block, dir) = self.valid_layout(depth, "", &owners, allow_insp);
-        Scenario { block, caller_keys: owners, alias_ids: false, dir, name: if self.r.chance(1, 2) { Some("final".into()) } else { None }, now: base_now(), faults: vec![] }
+        Scenario { block, caller_keys: owners, alias_ids: false, dir, name: if self.r.chance(1, 2) { Some("final".into()) } else { None }, now: self.now, faults: vec![] }
     }
 }
 
